@@ -139,6 +139,8 @@ class Ctx:
         self.dropped = {"comments": 0, "test_items": 0, "cfg_attrs": 0, "derive_attrs": 0, "allow_attrs": 0}
         self.fn_index = []       # dicts describing every fn emitted
         self.closure_n = 0
+        self.stub_fns = set()
+        self.drop_uses = set()   # (file, normalised use text) dropped on retry (unresolved import in changed code)
         self.gen_axioms = []     # (file, enum, variant, source type, ctor suffix): `?` conversion facts for synthesised #[from] impls
         self.lifted = []
     def log(self, rule, file, line, before, after):
@@ -408,9 +410,10 @@ class FileEmitter:
             while toks[idx] is not last: idx += 1
             idx += 1
         txt = R.text(toks[idx:]).strip()
+        raw = txt
         txt = self.rule_item_text(it, txt)
         if txt is None: return
-        self.out.add("".join(a + "\n" for a in attrs) + txt + "\n\n")
+        self.out.add("".join(a + "\n" for a in attrs) + txt + "\n\n", {"file": self.rel, "part": "item", "kind": it.kind, "use_norm": R.norm(raw) if it.kind == "use" else None})
 
     # ---- item-level rules -------------------------------------------------------------
     def rule_header(self, it, hdr):
@@ -428,6 +431,7 @@ class FileEmitter:
         ctx = self.ctx
         if it.kind == "use":
             if re.match(r"(pub\s+)?use\s+(thiserror|zeroize)\b", txt): return None
+            if (self.rel, R.norm(txt)) in self.ctx.drop_uses: return None
             txt = txt.replace("crate::core", "crate::rp_core")
             return txt
         if it.kind == "static":
@@ -572,6 +576,7 @@ class FileEmitter:
         d = sig_split(sig)
         d = rule_implarg(ctx, self.rel, d)
         body = R.text(it.body) if it.body is not None else None
+        self.dropped_hints = []
         is_display = parent is not None and parent.kind == "impl" and re.search(r"\b(Display|Debug)\s+for\b", R.text(parent.header)) and it.name == "fmt"
         ext = False
         if is_display:
@@ -586,7 +591,8 @@ class FileEmitter:
         pre = "".join(indent + a + "\n" for a in attrs)
         if spec:
             for a in spec.attrs: pre += indent + a.strip() + "\n"
-        if ext or (self.stub and body is not None):
+        stub_this = (self.stub or ("%s|%s::%s" % key) in self.ctx.stub_fns) and body is not None
+        if ext or stub_this:
             pre += indent + "#[verifier::external_body]\n"
         self.out.add(pre)
         self.out.add(indent + sigtxt.strip() + "\n", dict(meta_base, part="sig"))
@@ -602,7 +608,7 @@ class FileEmitter:
         if body is None:
             self.out.add(indent + ";\n\n")
         else:
-            if self.stub and not ext:
+            if stub_this and not ext:
                 self.out.add(indent + "{ unimplemented!() }\n\n")
             else:
                 b = body.replace("crate::core", "crate::rp_core")
@@ -615,7 +621,11 @@ class FileEmitter:
                     b = rule_body_text(ctx, self.rel, b)
                     b = self.weave_body(b, spec, it)
                 self.out.add(indent + b + "\n\n", dict(meta_base, part="body"))
-        ctx.fn_index.append({"file": self.rel, "impl": ik, "fn": it.name, "line": it.line, "external_body": bool(ext or self.stub),
+        self.dropped_hints = getattr(self, "dropped_hints", [])
+        bh = hashlib.sha1(re.sub(r"\s+", " ", (R.text(it.sig) + (body or ""))).encode()).hexdigest()[:16]
+        ctx.fn_index.append({"file": self.rel, "impl": ik, "fn": it.name, "line": it.line, "external_body": bool(ext or self.stub), "stubbed": bool(stub_this and not ext),
+                             "body_hash": bh, "hints_dropped": list(self.dropped_hints) if (body is not None and not ext and not stub_this) else [],
+                             "body_text": re.sub(r"\s+", " ", body or "")[:6000],
                              "contract": bool(spec), "safety": spec.safety if spec else [],
                              "labels": [l for l, _ in (spec.requires + spec.ensures)] if spec else [],
                              "ens_labels": [l for l, _ in spec.ensures] if spec else [],
@@ -635,6 +645,7 @@ class FileEmitter:
         self.extra.append(c)
 
     def weave_body(self, b, spec, it):
+        self.dropped_hints = []
         if not spec: return b
         ctx = self.ctx
         # b starts with '{' ends with '}'
@@ -648,7 +659,7 @@ class FileEmitter:
                 if re.search(rx, inner[start:e]): hit = e; break
                 start = e
             if hit is None:
-                raise ExtractError("lost anchor: %s:%d @after %s in fn %s" % (spec.src, spec.line, rx, it.name))
+                self.dropped_hints.append("@after %s" % rx); continue
             inner = inner[:hit] + "\n" + t + "\n" + inner[hit:]
         for rx, t in spec.before:
             stmts = self.stmt_ends(inner)
@@ -657,7 +668,7 @@ class FileEmitter:
                 if re.search(rx, inner[start:e]): hit = start; break
                 start = e
             if hit is None:
-                raise ExtractError("lost anchor: %s:%d @before %s in fn %s" % (spec.src, spec.line, rx, it.name))
+                self.dropped_hints.append("@before %s" % rx); continue
             inner = inner[:hit] + "\n" + t + "\n" + inner[hit:]
         if spec.entry:
             inner = "\n" + "\n".join(spec.entry) + "\n" + inner
@@ -722,7 +733,7 @@ class FileEmitter:
             i = j + 1
         for k in list(spec.loops) + list(spec.loopbody) + list(spec.loopend):
             if k >= ordn:
-                raise ExtractError("lost anchor: %s:%d @loop %d" % (spec.src, spec.line, k))
+                self.dropped_hints.append("@loop %d" % k)
         return out
 
 # --------------------------------------------------------------------------------------------
@@ -780,12 +791,13 @@ def emit_module(ctx, out, rel, modname, include, stubset, depth=0):
     if modname is not None:
         out.add("} // mod %s\n" % modname)
 
-def build(include=None, stubset=(), spec_paths=None, shim_paths=None, out_path=None):
+def build(include=None, stubset=(), spec_paths=None, shim_paths=None, out_path=None, stub_fns=(), drop_uses=()):
     specs = Specs()
     for p in (spec_paths or []):
         parse_vspec(p, specs)
     ctx = Ctx(specs)
     ctx.files = []; ctx.excluded = []
+    ctx.stub_fns = set(stub_fns); ctx.drop_uses = set(drop_uses)
     ctx.used_companions = set()
     out = Out()
     out.add("#![feature(allocator_api)]\n#![feature(sized_hierarchy)]\n#![allow(unused)]\n#![allow(unused_imports, dead_code, non_camel_case_types, unused_parens, unused_braces)]\nuse vstd::prelude::*;\n")
